@@ -10,11 +10,8 @@
            TreeSet from MachineMaps.treeset_refines, TreeBidiMap is proved here.
    Part 3: the machine-level theorems, for ALL op lists and ALL scripts.
 
-   The B-tree iterator of Model/BTreeIter.v descends with the constant fuel F = 64 (leftmost F,
-   rightmost F, climb_* F) where the Go code loops until it reaches a leaf.  Its statements therefore
-   carry [iter_fuel_ok s]: the root of a B-tree state has height <= 65.  A B-tree of height h holds at
-   least 2^h - 1 entries (IterTreeBT.bal_cnt_count), so this holds whenever Size() < 2^65
-   ([iter_fuel_ok_of_size]); for every other kind it is [True]. *)
+   The only hypotheses are on the configuration: the kind is one of the six, and a BTree is built
+   with order >= 3 ([btree_ok]; smaller orders panic in the constructor). *)
 From Coq Require Import ZArith List Bool Lia Arith.
 From Gods Require Import Common.Cmp Spec.SeqSpec Spec.MapSpec Model.Ops Model.Iter Model.Machine.
 From Gods Require Model.RBTree Model.AVLTree Model.BTree Model.BTreeIter.
@@ -138,10 +135,6 @@ Definition tree_iter_seq (c : config) (s : state) : list (Z * Z) :=
   | TreeSet => L.indexed (values_of c s)
   | _ => entries_of c s
   end.
-
-(* the model's B-tree iterator descends at most F = 64 levels below the root *)
-Definition iter_fuel_ok (s : state) : Prop :=
-  match s with StBT r _ => IterTreeBT.bt_depth_ok r | _ => True end.
 
 (* what the iterator proofs need of a state *)
 Definition tree_state (c : config) (s : state) : Prop :=
@@ -300,38 +293,22 @@ Theorem run_tree_not_crash : forall c ops, is_tree_iter_kind (ckind c) = true ->
   run c ops <> StCrash.
 Proof. intros c ops Hk Hb. eapply tree_state_not_crash. apply run_tree_state; assumption. Qed.
 
-(* the height bound follows from a bound on Size() *)
-Theorem iter_fuel_ok_of_size : forall c s, tree_state c s -> size_of c s < 2 ^ 65 -> iter_fuel_ok s.
-Proof.
-  intros c s Hs Hlt. destruct s as [| | | | |r n| | | | | | |]; try exact I.
-  unfold tree_state in Hs. destruct (ckind c); try contradiction.
-  destruct Hs as (Hm & Hinv & _ & Hn). cbn [size_of iter_fuel_ok] in *.
-  apply (IterTreeBT.bt_depth_ok_of_size (bt_m c) r Hm Hinv). rewrite <- Hn. exact Hlt.
-Qed.
-
-(* only B-tree states carry the side condition *)
-Lemma iter_fuel_ok_other : forall c s, tree_state c s -> ckind c <> BTree -> iter_fuel_ok s.
-Proof.
-  intros c s Hs K. destruct s as [| | | | |r n| | | | | | |]; try exact I.
-  unfold tree_state in Hs. destruct (ckind c); try contradiction; congruence.
-Qed.
-
 (* ====================================================================================== *)
 (* Part 3: the machine-level theorems                                                       *)
 (* ====================================================================================== *)
-Lemma bt_good_state : forall c r n, ckind c = BTree -> tree_state c (StBT r n) -> iter_fuel_ok (StBT r n) ->
+Lemma bt_good_state : forall c r n, ckind c = BTree -> tree_state c (StBT r n) ->
   IterTreeBT.bt_good (kc c) r /\ n = Z.of_nat (length (bt_inorder r)).
 Proof.
-  intros c r n K Hs Hd. unfold tree_state in Hs. rewrite K in Hs.
+  intros c r n K Hs. unfold tree_state in Hs. rewrite K in Hs.
   destruct Hs as (Hm & Hinv & Hsort & Hn). split; [|exact Hn].
-  exact (IterTreeBT.bt_good_of_inv (bt_m c) (kc c) r Hm Hinv Hsort Hd).
+  exact (IterTreeBT.bt_good_of_inv (bt_m c) (kc c) r Hm Hinv Hsort).
 Qed.
 
 (* every state of the right shape, all six kinds, every script *)
-Theorem tree_iter_is_cursor : forall c s cs, tree_state c s -> iter_fuel_ok s ->
+Theorem tree_iter_is_cursor : forall c s cs, tree_state c s ->
   run_iter c s cs = L.cursor_script (tree_iter_seq c s) true cs.
 Proof.
-  intros c s cs Hs Hd. rewrite <- cursor_script_eq. unfold tree_iter_seq.
+  intros c s cs Hs. rewrite <- cursor_script_eq. unfold tree_iter_seq.
   pose proof Hs as Hs'. unfold tree_state in Hs.
   destruct (ckind c) eqn:K; try contradiction; destruct s; try contradiction.
   - (* TreeSet *) cbn [values_of]. rewrite K, <- indexed_eq. apply T.run_iter_treeset; assumption.
@@ -340,41 +317,27 @@ Proof.
   - (* RedBlackTree *) apply T.run_iter_rb; [left; exact K|exact Hs].
   - (* AVLTree *) apply IterTreeAVL.run_iter_avl. exact Hs.
   - (* BTree *)
-    destruct (bt_good_state c r n K Hs' Hd) as [Hg Hn]. apply IterTreeBT.run_iter_bt; assumption.
+    destruct (bt_good_state c r n K Hs') as [Hg Hn]. apply IterTreeBT.run_iter_bt; assumption.
 Qed.
 
 (* after every history of operations *)
 Theorem tree_iter_reachable : forall c ops cs, is_tree_iter_kind (ckind c) = true -> btree_ok c = true ->
-  iter_fuel_ok (run c ops) ->
   run_iter c (run c ops) cs = L.cursor_script (tree_iter_seq c (run c ops)) true cs.
-Proof.
-  intros c ops cs Hk Hb Hd. apply tree_iter_is_cursor; [apply run_tree_state; assumption|exact Hd].
-Qed.
+Proof. intros c ops cs Hk Hb. apply tree_iter_is_cursor. apply run_tree_state; assumption. Qed.
 
-(* the five kinds without the B-tree: no side condition at all *)
-Theorem tree_iter_reachable_binary : forall c ops cs, is_tree_iter_kind (ckind c) = true -> ckind c <> BTree ->
-  run_iter c (run c ops) cs = L.cursor_script (tree_iter_seq c (run c ops)) true cs.
+(* the answers of a script depend on the enumerated sequence only *)
+Theorem tree_iter_seq_only : forall c ops1 ops2 cs, is_tree_iter_kind (ckind c) = true -> btree_ok c = true ->
+  tree_iter_seq c (run c ops1) = tree_iter_seq c (run c ops2) ->
+  run_iter c (run c ops1) cs = run_iter c (run c ops2) cs.
 Proof.
-  intros c ops cs Hk K.
-  assert (Hb : btree_ok c = true) by (unfold btree_ok; destruct (ckind c); congruence).
-  pose proof (run_tree_state c ops Hk Hb) as Hs.
-  apply tree_iter_is_cursor; [exact Hs|]. eapply iter_fuel_ok_other; eassumption.
-Qed.
-
-(* the side condition in terms of Size() *)
-Theorem tree_iter_reachable_size : forall c ops cs, is_tree_iter_kind (ckind c) = true -> btree_ok c = true ->
-  size_of c (run c ops) < 2 ^ 65 ->
-  run_iter c (run c ops) cs = L.cursor_script (tree_iter_seq c (run c ops)) true cs.
-Proof.
-  intros c ops cs Hk Hb Hsz. pose proof (run_tree_state c ops Hk Hb) as Hs.
-  apply tree_iter_is_cursor; [exact Hs|]. eapply iter_fuel_ok_of_size; eassumption.
+  intros c ops1 ops2 cs Hk Hb E. rewrite !tree_iter_reachable by assumption. rewrite E. reflexivity.
 Qed.
 
 (* ---------- the full walks ---------- *)
-Theorem each_of_tree_state : forall c s, tree_state c s -> iter_fuel_ok s ->
+Theorem each_of_tree_state : forall c s, tree_state c s ->
   each_of c s = Some (tree_iter_seq c s).
 Proof.
-  intros c s Hs Hd. unfold tree_iter_seq.
+  intros c s Hs. unfold tree_iter_seq.
   pose proof Hs as Hs'. unfold tree_state in Hs.
   destruct (ckind c) eqn:K; try contradiction; destruct s; try contradiction.
   - cbn [values_of]. rewrite K, <- indexed_eq. apply T.each_of_treeset; assumption.
@@ -382,31 +345,29 @@ Proof.
   - apply T.each_of_treebidi. exact Hs.
   - apply T.each_of_rb; [rewrite K; discriminate|exact Hs].
   - apply IterTreeAVL.each_of_avl. exact Hs.
-  - destruct (bt_good_state c r n K Hs' Hd) as [Hg Hn]. apply IterTreeBT.each_of_bt; assumption.
+  - destruct (bt_good_state c r n K Hs') as [Hg Hn]. apply IterTreeBT.each_of_bt; assumption.
 Qed.
 
-Theorem each_back_tree_state : forall c s, tree_state c s -> iter_fuel_ok s ->
+Theorem each_back_tree_state : forall c s, tree_state c s ->
   each_back c s = Some (rev (entries_of c s)).
 Proof.
-  intros c s Hs Hd. pose proof Hs as Hs'. unfold tree_state in Hs.
+  intros c s Hs. pose proof Hs as Hs'. unfold tree_state in Hs.
   destruct (ckind c) eqn:K; try contradiction; destruct s; try contradiction.
   - apply T.each_back_rb. exact Hs.
   - apply T.each_back_rb. exact Hs.
   - apply T.each_back_treebidi. exact Hs.
   - apply T.each_back_rb. exact Hs.
   - apply IterTreeAVL.each_back_avl. exact Hs.
-  - destruct (bt_good_state c r n K Hs' Hd) as [Hg Hn]. apply IterTreeBT.each_back_bt; assumption.
+  - destruct (bt_good_state c r n K Hs') as [Hg Hn]. apply IterTreeBT.each_back_bt; assumption.
 Qed.
 
 Theorem each_of_tree_machine : forall c ops, is_tree_iter_kind (ckind c) = true -> btree_ok c = true ->
-  iter_fuel_ok (run c ops) ->
   each_of c (run c ops) = Some (tree_iter_seq c (run c ops)).
-Proof. intros c ops Hk Hb Hd. apply each_of_tree_state; [apply run_tree_state; assumption|exact Hd]. Qed.
+Proof. intros c ops Hk Hb. apply each_of_tree_state. apply run_tree_state; assumption. Qed.
 
 Theorem each_back_tree_machine : forall c ops, is_tree_iter_kind (ckind c) = true -> btree_ok c = true ->
-  iter_fuel_ok (run c ops) ->
   each_back c (run c ops) = Some (rev (entries_of c (run c ops))).
-Proof. intros c ops Hk Hb Hd. apply each_back_tree_state; [apply run_tree_state; assumption|exact Hd]. Qed.
+Proof. intros c ops Hk Hb. apply each_back_tree_state. apply run_tree_state; assumption. Qed.
 
 (* ---------- the sequence is the container's Keys() / Values(), its length is Size() ---------- *)
 Lemma tree_seq_size : forall c s, tree_state c s -> L.cur_n (tree_iter_seq c s) = size_of c s.
@@ -459,16 +420,16 @@ Theorem avl_path_iterator : forall (t : AVL.tree) fuel cs, (AVL.count t + 2 <= f
 Proof. intros t fuel cs Hf. rewrite <- cursor_script_eq. apply IterTreeAVL.AVLIter.avl_iter_script. exact Hf. Qed.
 
 (* (d) B-tree path iterator (re-finds its entry by key): shape invariant, strictly ascending entries
-   under a strict weak order, height within the model's descent fuel *)
+   under a strict weak order *)
 Theorem bt_path_iterator : forall cmp, SWO cmp -> forall m (r : option BT.node) fuel cs, (3 <= m)%nat ->
-  BTreeInv.btree_inv m r -> BTreeInv.sorted_root cmp r -> IterTreeBT.bt_depth_ok r ->
+  BTreeInv.btree_inv m r -> BTreeInv.sorted_root cmp r ->
   (length (bt_inorder r) + 2 <= fuel)%nat ->
   run_script BTI.ipos (bt_next cmp r) (bt_prev cmp r) (fun _ => BTI.IBegin) (fun _ => BTI.IEnd) (BTI.ientry r) true fuel BTI.IBegin cs
   = L.cursor_script (bt_inorder r) true cs.
 Proof.
-  intros cmp Hswo m r fuel cs Hm Hinv Hs Hd Hf. rewrite <- cursor_script_eq.
+  intros cmp Hswo m r fuel cs Hm Hinv Hs Hf. rewrite <- cursor_script_eq.
   apply (IterTreeBT.bt_iter_script cmp Hswo); [|exact Hf].
-  exact (IterTreeBT.bt_good_of_inv m cmp r Hm Hinv Hs Hd).
+  exact (IterTreeBT.bt_good_of_inv m cmp r Hm Hinv Hs).
 Qed.
 
 (* kind by kind, on any state whose cached size is right *)
@@ -493,12 +454,12 @@ Theorem iter_AVLTree : forall c t n cs, n = Z.of_nat (AVL.count t) ->
 Proof. intros c t n cs Hn. rewrite <- cursor_script_eq. apply IterTreeAVL.run_iter_avl. exact Hn. Qed.
 
 Theorem iter_BTree : forall c r n cs, (3 <= bt_m c)%nat ->
-  BTreeInv.btree_inv (bt_m c) r -> BTreeInv.sorted_root (kc c) r -> IterTreeBT.bt_depth_ok r ->
+  BTreeInv.btree_inv (bt_m c) r -> BTreeInv.sorted_root (kc c) r ->
   n = Z.of_nat (length (bt_inorder r)) ->
   run_iter c (StBT r n) cs = L.cursor_script (entries_of c (StBT r n)) true cs.
 Proof.
-  intros c r n cs Hm Hinv Hs Hd Hn. rewrite <- cursor_script_eq. apply IterTreeBT.run_iter_bt; [|exact Hn].
-  exact (IterTreeBT.bt_good_of_inv (bt_m c) (kc c) r Hm Hinv Hs Hd).
+  intros c r n cs Hm Hinv Hs Hn. rewrite <- cursor_script_eq. apply IterTreeBT.run_iter_bt; [|exact Hn].
+  exact (IterTreeBT.bt_good_of_inv (bt_m c) (kc c) r Hm Hinv Hs).
 Qed.
 
 (* ====================================================================================== *)
@@ -608,8 +569,7 @@ Qed.
 Print Assumptions cursor_script_eq.
 Print Assumptions run_tree_state.
 Print Assumptions tree_iter_reachable.
-Print Assumptions tree_iter_reachable_binary.
-Print Assumptions tree_iter_reachable_size.
+Print Assumptions tree_iter_seq_only.
 Print Assumptions each_of_tree_machine.
 Print Assumptions each_back_tree_machine.
 Print Assumptions tree_move_result.
